@@ -167,6 +167,7 @@ class Body:
         self.raw_path = j["path"]
         self.path = unit.qualify(j["path"], unit.crate)
         self.npath = strip_generics(self.path)
+        self.dpath = j.get("dpath")
         self.kind = j["kind"]
         self.bkind = j["bkind"]
         self.span = j["span"]
@@ -277,6 +278,27 @@ class Program:
     def unit(self, crate):
         if crate not in self.by_crate:
             raise AnchorLost("no unit for crate %s in config %s" % (crate, self.config))
+        return self.by_crate[crate]
+
+    def all_bodies(self):
+        for u in self.units:
+            for b in u.bodies:
+                yield b
+
+
+class Merged:
+    """Several configurations viewed as one program (e.g. witness crates + the libraries they use)."""
+
+    def __init__(self, *progs):
+        self.config = "+".join(p.config for p in progs)
+        self.units = [u for p in progs for u in p.units]
+        self.by_crate = {}
+        for u in self.units:
+            self.by_crate.setdefault(u.crate, u)
+
+    def unit(self, crate):
+        if crate not in self.by_crate:
+            raise AnchorLost("no unit for crate %s in %s" % (crate, self.config))
         return self.by_crate[crate]
 
     def all_bodies(self):
